@@ -56,6 +56,8 @@ type Engine struct {
 	curPureDynamic  bool
 	debugPanics     bool
 	keys            []string
+	ginit           map[*ssa.Global][]globalInitFact
+	bodySum         map[*ssa.Function]map[string]bool
 }
 
 type chanHooks struct {
@@ -407,7 +409,7 @@ func (eng *Engine) concreteTypes() []types.Type {
 	sort.Strings(paths)
 	for _, path := range paths {
 		p := eng.allPkgs[path]
-		if !strings.HasPrefix(path, repoModule) && path != "net" && path != "errors" && path != "fmt" && !strings.HasPrefix(path, "github.com/u-root/uio") {
+		if !strings.HasPrefix(path, repoModule) && path != "net" && path != "errors" && path != "fmt" && path != "encoding/binary" && !strings.HasPrefix(path, "github.com/u-root/uio") {
 			continue
 		}
 		sc := p.Types.Scope()
@@ -645,6 +647,25 @@ func (eng *Engine) fnWrites(fn *ssa.Function, w map[string]bool, stack map[*ssa.
 	}
 }
 
+// bodyWrites: heap kinds written or allocated by the body of fn itself (its own contract is ignored, callee contracts are used)
+func (eng *Engine) bodyWrites(fn *ssa.Function) map[string]bool {
+	if s, ok := eng.bodySum[fn]; ok {
+		return s
+	}
+	sum := map[string]bool{}
+	stack := map[*ssa.Function]bool{fn: true}
+	for _, b := range fn.Blocks {
+		for _, in := range b.Instrs {
+			eng.instrWrites(in, sum, stack)
+		}
+	}
+	if eng.bodySum == nil {
+		eng.bodySum = map[*ssa.Function]map[string]bool{}
+	}
+	eng.bodySum[fn] = sum
+	return sum
+}
+
 // effectFree: the function writes only memory it allocated itself (static over-approximation)
 func (eng *Engine) effectFree(fn *ssa.Function) bool {
 	if len(fn.Blocks) == 0 {
@@ -769,4 +790,97 @@ func (eng *Engine) globalReassigned(gl *ssa.Global) bool {
 		}
 	}
 	return eng.reassigned[gl]
+}
+
+// ---------- initial values of immutable package-level variables ----------
+
+type globalInitFact struct {
+	slot int
+	kind string
+	term string
+}
+
+// globalInit: constant stores performed by the package initialiser into gl (only used when gl is never written elsewhere)
+func (eng *Engine) globalInit(gl *ssa.Global) []globalInitFact {
+	if eng.ginit == nil {
+		eng.ginit = map[*ssa.Global][]globalInitFact{}
+		g := &Gen{eng: eng, structs: map[string]string{}, strConst: map[string]string{}}
+		for fn := range eng.allFns {
+			if !(fn.Name() == "init" || strings.HasPrefix(fn.Name(), "init#")) {
+				continue
+			}
+			for _, b := range fn.Blocks {
+				for _, in := range b.Instrs {
+					st, ok := in.(*ssa.Store)
+					if !ok {
+						continue
+					}
+					c, ok := st.Val.(*ssa.Const)
+					if !ok || c.Value == nil {
+						continue
+					}
+					if isString(c.Type()) {
+						continue
+					}
+					slot := 0
+					addr := st.Addr
+					okAddr := true
+					for okAddr {
+						switch x := addr.(type) {
+						case *ssa.IndexAddr:
+							k, isC := constInt(x.Index)
+							pt, isP := x.X.Type().Underlying().(*types.Pointer)
+							if !isC || !isP {
+								okAddr = false
+								break
+							}
+							arr := pt.Elem().Underlying().(*types.Array)
+							slot += int(k.Int64()) * slots(arr.Elem())
+							addr = x.X
+							continue
+						case *ssa.FieldAddr:
+							stt := x.X.Type().Underlying().(*types.Pointer).Elem().Underlying().(*types.Struct)
+							slot += fieldSlot(stt, x.Field)
+							addr = x.X
+							continue
+						}
+						break
+					}
+					gg, isG := addr.(*ssa.Global)
+					if !okAddr || !isG {
+						continue
+					}
+					eng.ginit[gg] = append(eng.ginit[gg], globalInitFact{slot, kindOf(c.Type()), g.constTerm(c)})
+				}
+			}
+		}
+	}
+	return eng.ginit[gl]
+}
+
+// referencedGlobals: globals mentioned by fn or by functions it calls statically (bounded depth)
+func (eng *Engine) referencedGlobals(fn *ssa.Function, depth int, seen map[*ssa.Function]bool, out map[*ssa.Global]bool) {
+	if seen[fn] || depth > 6 {
+		return
+	}
+	seen[fn] = true
+	var ops []*ssa.Value
+	for _, b := range fn.Blocks {
+		for _, in := range b.Instrs {
+			ops = in.Operands(ops[:0])
+			for _, o := range ops {
+				if o == nil || *o == nil {
+					continue
+				}
+				switch x := (*o).(type) {
+				case *ssa.Global:
+					out[x] = true
+				case *ssa.Function:
+					if eng.inRepoOrUio(x) {
+						eng.referencedGlobals(x, depth+1, seen, out)
+					}
+				}
+			}
+		}
+	}
 }
